@@ -15,7 +15,9 @@ SEEDS = ['0', '1', '2', '3', '7', '42', '12345', 'random']
 ENVS = [{'LANG': 'C', 'LC_ALL': 'C'}, {'LANG': 'tr_TR.UTF-8', 'LC_ALL': 'tr_TR.UTF-8', 'TZ': 'Pacific/Kiritimati'},
         {'HOME': '/nonexistent', 'COLUMNS': '20', 'PYTHONUTF8': '1', 'TERM': 'dumb'},
         {'COLUMNS': '200', 'LINES': '60', 'TERM': 'xterm-256color', 'FORCE_COLOR': '1', 'CLICOLOR_FORCE': '1'},
-        {'COLUMNS': '1000', 'LINES': '5', 'NO_COLOR': '1', 'USER': 'nobody', 'TMPDIR': '/nonexistent'}]
+        {'COLUMNS': '1000', 'LINES': '5', 'NO_COLOR': '1', 'USER': 'nobody', 'TMPDIR': '/nonexistent'},
+        # two home directories inside the scratch directory (they hold decoy copies in the "~" cases)
+        {'HOME': '{SCRATCH}/home1', 'USERPROFILE': '{SCRATCH}/home1'}, {'HOME': '{SCRATCH}/home2', 'XDG_CONFIG_HOME': '{SCRATCH}/home2'}]
 FORMATS = c16.FORMATS
 
 
@@ -44,7 +46,7 @@ class C15(core.Check):
                    'absolute scratch-directory paths printed by the listing are normalised before comparison')
     chunk = 2500
     crosscheck_every = {'quick': 200, 'thorough': 200}
-    required_buckets = {b: 3 for b in ['prog:overlapping-vocabulary', 'var:hashseed', 'var:env', 'var:cwd', 'var:include-order', 'var:include-duplicate',
+    required_buckets = {b: 3 for b in ['prog:overlapping-vocabulary', 'prog:tilde-directory', 'var:hashseed', 'var:env', 'var:cwd', 'var:include-order', 'var:include-duplicate',
                                        'var:include-symlink', 'prog:generated-isa', 'prog:multi-file', 'prog:example',
                                        'include-dirs>=3', 'ambiguous-include-name']}
 
@@ -148,6 +150,16 @@ class C15(core.Check):
                 src.append(mns[a_] + (' 7' if a_ % 2 else '') + ' ' + mns[b_] + (' 9' if b_ % 2 else ''))
             fn, text = isamod.render_isa(isa, 'json')
             yield self.build_runs({fn: text, 'p.asm': '\n'.join(src) + '\n'}, 'p.asm', fn, ['.'], {'prog:overlapping-vocabulary'})
+        # a search directory whose name begins with "~" is that directory, whatever HOME says
+        for k, incdir in enumerate(['~/lib', '~lib', '~']):
+            isa = gen_prog.layout_isa(16)
+            fn, text = isamod.render_isa(isa, 'json')
+            files = {fn: text, 'p.asm': '.byte 1\n#include "tdefs.asm"\n.byte T_VAL, 3\n',
+                     incdir + '/tdefs.asm': 'T_VAL = $42\n.byte 2\n'}
+            for h_, v_ in (('home1', '$99'), ('home2', '$77')):
+                for sub in ('lib/', '', 'ib/'):
+                    files[f'{h_}/{sub}tdefs.asm'] = f'T_VAL = {v_}\n.byte 2\n'
+            yield self.build_runs(files, 'p.asm', fn, ['.', incdir], {'prog:tilde-directory'})
         n = 30 if tier == 'quick' else 400
         for i in range(n):
             rng = core.rng_for(0 if i < 12 else seed, self.pid, i)
@@ -224,7 +236,7 @@ class C15(core.Check):
                 base[f] = o
             elif tag == 'baseline-abs':
                 base['abs/' + f] = o
-        if 'prog:overlapping-vocabulary' in case['tags'] and any(o_.get('exit') != 0 for o_ in base.values()):
+        if ('prog:overlapping-vocabulary' in case['tags'] or 'prog:tilde-directory' in case['tags']) and all(o_.get('exit') != 0 for o_ in outcomes):
             # these directed programs are meant to assemble: agreeing failures would show nothing
             return [core.inconclusive('directed program does not assemble', {'stderr': (list(base.values())[0].get('stderr') or '')[-300:]})]
         for (tag, f, hs), o, r in zip(labels, outcomes, case['runs']):
